@@ -132,8 +132,16 @@ def case_rotation2(ctx, cfg):
 # ---------------------------------------------------------------------------------------------------
 
 
+# axes whose coordinate vector is ALMOST of length one (within 1e-5, as unit vectors rounded to five or six digits are):
+# a shortcut "already normalised" must be exact
+NEAR_UNIT_AXES = [(0.57735, 0.57735, 0.57735), (0.6, 0.8, 0.003), (1.0, 0.002, 0.0), (0.0, -0.999995, 0.0), (0.267261, 0.534522, 0.801784), (-0.70711, 0.0, 0.70711)]
+
+
 def enum_rotation3(tier, seed):
     for ax in lattice(3, 3 if tier == "thorough" else 2):
+        for form in ("point", "scaled"):
+            yield (ax, form)
+    for ax in NEAR_UNIT_AXES:
         for form in ("point", "scaled"):
             yield (ax, form)
 
@@ -148,7 +156,10 @@ def case_rotation3(ctx, cfg):
     u = np.array(ax, dtype=float)
     u /= np.linalg.norm(u)
     # a lattice vector perpendicular to the axis
-    perp = next(np.array(w, dtype=float) for w in lattice(3, 3) if sum(a * b for a, b in zip(w, ax)) == 0)
+    if all(float(x).is_integer() for x in ax):
+        perp = next(np.array(w, dtype=float) for w in lattice(3, 3) if sum(a * b for a, b in zip(w, ax)) == 0)
+    else:
+        perp = np.cross(u, np.eye(3)[int(np.argmin(np.abs(u)))])
     angles = ANGLES_T[:len(ANGLES) + 8] if ctx.tier == "thorough" else ANGLES[::2] + ANGLES[-5:]
     mats = {}
     for a in angles:
